@@ -96,6 +96,13 @@ theorem entry_mk'_pad [Zero R] (dom cod : List Nat) (a : NDArray R) (m n : Nat)
   simp only
   rw [hs, flatIdx_pad m n hi]
 
+theorem prod_ashape (dom cod : List Nat) : prod (ashape dom cod) = prod (dom ++ cod) := by
+  rw [ashape_eq_padR, prod_append, prod_padShape, Nat.mul_one]
+
+theorem WF.arr_wf {t : Tensor R} (h : t.WF) : t.arr.WF := by
+  unfold NDArray.WF
+  rw [h.1, h.2, prod_ashape]
+
 theorem mk'_wf (dom cod : List Nat) (a : NDArray R) (ha : a.WF)
     (hs : prod a.shape = prod (dom ++ cod)) : (mk' dom cod a).WF := by
   refine ⟨rfl, ?_⟩
